@@ -33,7 +33,7 @@ REGISTRY = dict(
           "(add raises iff full, get raises iff not full, arrays flattened exactly once per fill for any number of passes)."),
     note=("Trusted: Coq 8.16.1 kernel (vm_compute, no native_compute), translate/py2coq.py + specs/replay.py, harness/c03.py, Python/numpy/torch/gymnasium. "
           "Not verified: numpy fancy-indexing gather, to_torch, dtype casts (covered by the correspondence on 7 observation and 6 action kinds only). "
-          "Known finding F3: optimize_memory_usage=True returns the next episode's first observation as next_obs of an episode-ending transition (Refuted/C03_memopt_done_next.v). "
+          "Known finding F3 `memopt-next-obs-of-done-transition`: optimize_memory_usage=True returns the next episode's first observation as next_obs of an episode-ending transition (Refuted/C03_memopt_done_next.v). "
           "All C03 theorems are closed under the global context (no axioms)."),
     technique="machine-checked proof in Coq (ring-buffer invariant by induction over the history) + regenerated-fragment interface lemmas + differential correspondence with exhaustive sample tables",
 )
